@@ -166,7 +166,8 @@ pub fn run_history<T: Bits>(h: &History) -> Vec<Outcome> {
     let mut st: LinkageState<T> = LinkageState::new();
     let mut d: Dendrogram<T> = Dendrogram::new(0);
     let mut outs = Vec::new();
-    for c in &h.calls {
+    for (k, c) in h.calls.iter().enumerate() {
+        tick_global(&format!("call #{} of the reuse history {}", k, history_coq(h)));
         let mut m: Vec<T> = c.bits.iter().map(|&b| T::from_bits64(b)).collect();
         acc_reset();
         let r = catch(|| call_with::<T>(c.algo, c.method, &mut st, &mut m, c.n as usize, &mut d));
